@@ -6,9 +6,18 @@ open MtailVerif MtailVerif.Driver MtailVerif.FileStream
 
 def cfg : Cfg := ⟨Generated.FileStream.finishOnRotate, Generated.FileStream.finishClears⟩
 
+/-- the bulk append `A:<n>:<len>`: `n` newline-terminated lines of `len` bytes (a six-digit line
+    number, then letters) -/
+def bulk (n len : Nat) : Bytes :=
+  (List.range n).flatMap fun i =>
+    let num := toString i
+    let head := ("".pushn '0' (6 - num.length) ++ num).toUTF8.toList
+    head ++ (List.range (len - 6)).map (fun j => (97 + (i + j + 6) % 26).toUInt8) ++ [10]
+
 def parseOp (s : String) : Option Op :=
   match s.splitOn ":" with
   | ["a", h] => (Hex.decode h).map .append
+  | ["A", n, len] => some (.append (bulk n.toNat! len.toNat!))
   | ["t"] => some .truncate
   | ["rot"] => some .rotate
   | ["ct"] => some .copyTruncate
